@@ -878,9 +878,6 @@ impl S {
                 self.rebuild();
             }
         }
-        if std::env::var("C08_VERBOSE").is_ok() {
-            eprintln!("PROBE `{line}` msg {msg} -> {:?}", r.as_ref().map(|x| x.events.len()));
-        }
         let who = match (&g, fk) {
             (Some(g), _) => minter_name(g.code).to_string(),
             (None, Some(k)) => fk_name(k).to_string(),
@@ -2086,7 +2083,8 @@ fn main() {
         for l in fund_lines(12) {
             ses.step(&mut sut, &l);
         }
-        let p0 = P { kind, code, allowed: vec![16], frozen: false, fee: (0, 2), minp: (0, 0), off: 0, maxtok: 400, maxper: 9, airp: (0, 0) };
+        // (a fee that any burn/pool split can divide into two non-zero parts: the split is C06's, not this scenario's subject)
+        let p0 = P { kind, code, allowed: vec![16], frozen: false, fee: (0, 1000), minp: (0, 0), off: 0, maxtok: 400, maxper: 9, airp: (0, 0) };
         let out = ses.step(&mut sut, &mkfactory_line(&p0));
         let f = kv_u64(&out, "f").unwrap();
         let ns: Vec<u64> = if ses.tier() == Tier::Quick { vec![1, 50, 99, 100, 101, 133, 134, 166, 167, 200, 201, 233, 234, 300, 301] } else { (1..=320).collect() };
